@@ -98,7 +98,37 @@ PROGRAMS = [('p_layer_mapping', None)] + [('p_block_mapping', (s, t)) for s in (
            [('p_self_identity', a) for a in (0, 1, 2)]
 
 
+def _f(v, d):
+    if isinstance(v, dict):
+        return float(int(v['num'])) / float(int(v['den']))
+    return float(v) if v is not None else d
+
+
 def replay(obname, model, result):
+    m = model or {}
+    if result['program'] == 'p_block_mapping' and 'z0' in m and 't_z0' in m:
+        satm, tatm = result['arg']
+        z0, b = _f(m['z0'], 0.), [_f(m['bottom%d' % i], -5. * i) for i in (1, 2, 3)]
+        c = [_f(m['centre%d' % i], 0.) for i in (1, 2, 3)]
+        tz0, tb = _f(m['t_z0'], 0.), [_f(m['t_bottom%d' % i], -4. * i) for i in (1, 2)]
+        tc = [_f(m['t_centre%d' % i], 0.) for i in (1, 2)]
+        ss, ts = _f(m.get('surfaces'), z0), _f(m.get('surfacet'), tz0)
+        return ("import numpy as np\nfrom mulgrids import *\n"
+                "src = mulgrid().rectangular([10.], [10.], [%r, %r, %r], origin=[0., 0., %r], atmos_type=%d)\n"
+                "tgt = mulgrid().rectangular([10.], [10.], [%r, %r], origin=[0., 0., %r], atmos_type=%d)\n"
+                "for lay, cc in zip(src.layerlist[1:], %r): lay.centre = cc\n"
+                "for lay, cc in zip(tgt.layerlist[1:], %r): lay.centre = cc\n"
+                "for g, s in ((src, %r), (tgt, %r)):\n"
+                "    g.columnlist[0].surface = s; g.set_column_num_layers(g.columnlist[0]); g.setup_block_name_index(); g.setup_block_connection_name_index()\n"
+                "try:\n"
+                "    mp = src.block_mapping(tgt)\n"
+                "    und = tgt.block_name_list[tgt.num_atmosphere_blocks:]\n"
+                "    bad = [(b, mp.get(b)) for b in und if mp.get(b) not in src.block_name_list]\n"
+                "    ok = set(mp) == set(tgt.block_name_list) and not bad\n"
+                "    detail = 'images that do not exist in the source: %%r (source blocks %%r, source surface %%r)' %% (bad, src.block_name_list, src.columnlist[0].surface)\n"
+                "except Exception as ex:\n"
+                "    ok, detail = False, '%%s: %%s' %% (type(ex).__name__, ex)\n") % (
+                    z0 - b[0], b[0] - b[1], b[1] - b[2], z0, satm, tz0 - tb[0], tb[0] - tb[1], tz0, tatm, c, tc, ss, ts)
     return ("import numpy as np\nfrom mulgrids import *\n"
             "ok, detail = True, ''\n"
             "for satm in (0, 1, 2):\n"
